@@ -541,6 +541,7 @@ func blockRun(r *vh.Run, idx int) {
 	var mu sync.Mutex
 	cleaned := map[int64]bool{}
 	pruneStart := map[int64][]int64{}
+	preCalls, postCalls := map[int64]int{}, map[int64]int{} // the hooks bracket a cleanup attempt: whatever the pass decides after its pre hook, the post hook follows
 	age := time.Duration(0)
 	if mode >= 2 {
 		age = []time.Duration{15 * time.Millisecond, 30 * time.Millisecond}[rng.Intn(2)]
@@ -563,12 +564,19 @@ func blockRun(r *vh.Run, idx int) {
 	}}
 	if mode >= 2 {
 		o.PrunePreFn = func(k int, v int64) {
+			mu.Lock()
+			preCalls[v]++
+			mu.Unlock()
 			if v == target {
 				started <- struct{}{}
 				<-gate
 			}
 		}
-		o.PrunePostFn = func(int, int64) {}
+		o.PrunePostFn = func(k int, v int64) {
+			mu.Lock()
+			postCalls[v]++
+			mu.Unlock()
+		}
 	}
 	ca := cache.New[int, int64](o)
 	others := rng.Intn(3)
@@ -720,6 +728,24 @@ collect:
 		}
 		mu.Unlock()
 		r.Count("block_uses_during_pre", 1)
+	}
+	// every pre hook of the parked pass has been followed by its post hook by now (the pass went on right after the
+	// gate opened; a pass that is still inside a later pre hook has pre == post + 1 for that value only while it runs)
+	balanced := false
+	for k := 0; k < 400 && !balanced; k++ {
+		mu.Lock()
+		balanced = preCalls[target] == postCalls[target]
+		mu.Unlock()
+		if !balanced {
+			time.Sleep(5 * time.Millisecond)
+		}
+	}
+	r.Count("hook_balance_checks", 1)
+	if !balanced {
+		mu.Lock()
+		pc, qc := preCalls[target], postCalls[target]
+		mu.Unlock()
+		viol("pre/post hooks unbalanced", fmt.Sprintf("the pre hook of value %d ran %d times, its post hook %d times, 2 s after the pass was released (mode %d: the entry was used or replaced while the pass waited) - whoever took a lock in the pre hook never releases it", target, pc, qc, mode))
 	}
 	r.Distinct("configs", fmt.Sprintf("block/%d/%v", mode, age))
 	_ = ca.DeleteAll()
